@@ -62,6 +62,20 @@ class _ModProxy:
         seam = f'{self._prefix}.{name}'
         if seam in self._faults.seams:
             def call(*a, **k):
+                if self._faults.pending(seam) == 'SamtoolsError+partial':
+                    # the library call runs, its output loses the final (EOF) block - as when the last write is refused by a full disk -
+                    # and the call reports failure: a failing call that leaves partial output behind
+                    try:
+                        real(*a, **k)
+                    finally:
+                        target = None
+                        if name == 'sort' and '-o' in a:
+                            target = a[a.index('-o') + 1]
+                        elif name == 'merge' and a:
+                            target = a[0]
+                        if target and os.path.exists(target) and os.path.getsize(target) > 28:
+                            with open(target, 'r+b') as f:
+                                f.truncate(os.path.getsize(target) - 28)
                 self._faults.hit(seam)
                 return real(*a, **k)
             return call
@@ -118,6 +132,9 @@ class FaultPlan:
         self.counts = {}
         self.fired = {}
         self.log = log
+
+    def pending(self, seam):
+        return self.plan.get(seam, {}).get(self.counts.get(seam, 0))
 
     def hit(self, seam):
         n = self.counts.get(seam, 0)
